@@ -577,10 +577,12 @@ def w_simplify_lists(case, led):
     _, uname, first, seed, tier = case
     uni = universe(uname)
     T = simplify_terms(uni)
-    maxlen = 4 if tier == "quick" else 5
+    full = 3 if tier == "quick" else 4      # all lists up to this length; one length more as a seeded 1-in-8 sample
     sagg = {}
-    for n in range(0, maxlen):     # lists [T[first]] + n more terms (and the empty list once)
-        for rest in itertools.product(range(len(T)), repeat=n):
+    for n in range(0, full + 1):     # lists [T[first]] + n more terms (and the empty list once)
+        for cnt, rest in enumerate(itertools.product(range(len(T)), repeat=n)):
+            if n == full and (cnt * 7 + first + seed) % 8:
+                continue
             idx = (first,) + rest
             v = V("OpSum([" + ", ".join(T[k].src for k in idx) + "])", OpSum([T[k].val for k in idx]), 2)
             for at in ATOLS:
@@ -977,8 +979,8 @@ def check(run):
                 f"(de-duplicated: {sizes}) is combined with every other one as left and right operand under +, -, *, +=, sum(), sum(.., OpSum()), Op.product, "
                 "OpSum.product, plain-list operands, and with every unary operator (scalars 2, 0.5, 1j, np.float64(3), np.int64(2) on either side, /c, -E, "
                 "+0, 0+, copy, simplify with atol in {default, 0, 1e-12, 1e-3}); simplify is also applied to the depth-3 sums (quick: seeded 1/6 sample, "
-                "thorough: all, plus five more scalars). Separately: simplify on all lists of <= 4 (5) terms from a pool of 12 (equal words with/without "
-                "identity letters, cancelling and negligible factors at/below/above each atol); squeeze_identity on all words of length <= 3 (4); "
+                "thorough: all, plus five more scalars). Separately: simplify on all lists of <= 3 (4) terms, and a seeded 1-in-8 sample of the lists with one "
+                "term more, from a pool of 12 (equal words with/without identity letters, cancelling and negligible factors at/below/above each atol); squeeze_identity on all words of length <= 3 (4); "
                 "==/hash/to_tuple/same_term on all pairs of ~400 Ops built through different spellings; symbol join/split on all words of length <= 3 (4) "
                 "over 11 simple symbols; 36 documented rejections; Model.check_operator_terms on all lists of <= 3 (4) items from 16. "
                 "non-trivial: products whose operand matrices do not commute, sums with non-zero value, simplifications that merge/drop/squeeze; "
